@@ -45,6 +45,23 @@ pub struct ItsBinder {
     pub sac_meta: Option<(Vec<u8>, Vec<u8>, u32)>,
     pub example: Address,
     pub system: bool,
+    /// this deployment's own chain name (instance field `ChainName`, default "stellar")
+    pub chain_name: String,
+    /// two-chain instances (spec/Bridge.tla): parties on the OTHER chain, by name -> the bytes that name them there
+    pub remote_parties: BTreeMap<String, Vec<u8>>,
+    /// raw hub payloads this service announced, in order (taken by the bridge binding)
+    pub out_raw: Vec<Vec<u8>>,
+    /// raw bytes to deliver instead of the harness's own encoding of the next `Deliver`'s catalogue payload
+    pub raw_next: Option<Vec<u8>>,
+}
+
+/// bytes announced by the code under test are data: parsed outside the host, so that bytes that are not the XDR of an
+/// address give `None` instead of a host error
+fn addr_of_xdr(env: &Env, b: &[u8]) -> Option<Address> {
+    match <xdr::ScVal as xdr::ReadXdr>::from_xdr(b, xdr::Limits::none()) {
+        Ok(v @ xdr::ScVal::Address(_)) => Address::try_from_val(env, &v).ok(),
+        _ => None,
+    }
 }
 
 fn gw_inst() -> J {
@@ -80,6 +97,10 @@ impl ItsBinder {
             sac_meta: None,
             example: ph.clone(),
             system,
+            chain_name: inst.get("ChainName").and_then(|x| x.as_str()).unwrap_or(CHAIN_NAME).to_string(),
+            remote_parties: BTreeMap::new(),
+            out_raw: vec![],
+            raw_next: None,
         };
         let env = b.g.cx.env.clone();
         let gw = b.g.gw.clone().unwrap();
@@ -96,7 +117,7 @@ impl ItsBinder {
                 (owner.clone(), gw.clone(), gs_addr.clone(), SStr::from_str(&env, HUB_ADDR), SStr::from_str(&env, chain), wasm_hash.clone()),
             )
         };
-        b.its = mk_its(CHAIN_NAME);
+        b.its = mk_its(&b.chain_name.clone());
         b.wasm_hash = Some(wasm_hash.clone());
         let its_other_chain = mk_its("another-chain");
         b.g.cx.bind("its", &b.its.clone());
@@ -320,7 +341,7 @@ impl ItsBinder {
     }
 
     // ---- payloads ---------------------------------------------------------------------------
-    fn addr_xdr(&mut self, who: &str) -> Vec<u8> {
+    pub fn addr_xdr(&mut self, who: &str) -> Vec<u8> {
         let a = self.g.cx.addr(who);
         bytes_to_vec(&a.to_xdr(&self.g.cx.env))
     }
@@ -413,7 +434,7 @@ impl ItsBinder {
         let id = self.id_name(&jbytes(&m["tokenId"]));
         if m["inner"] == json!("transfer") {
             let env = self.g.cx.env.clone();
-            let sender = Address::from_xdr(&env, &Bytes::from_slice(&env, &jbytes(&m["src"]))).map(|a| self.g.cx.name_of(&a)).unwrap_or("BadSender".into());
+            let sender = addr_of_xdr(&env, &jbytes(&m["src"])).map(|a| self.g.cx.name_of(&a)).unwrap_or("BadSender".into());
             let a = jbytes(&m["amount"]);
             let mut buf = [0u8; 16];
             buf.copy_from_slice(&a);
@@ -421,7 +442,7 @@ impl ItsBinder {
             let data = jbytes(&m["data"]);
             let dname = if data.is_empty() { "none".to_string() } else { ["d1", "d2", "b1", "b2", "b31", "b32", "b33"].iter().find(|d| Self::data_bytes(d) == data).map(|s| s.to_string()).unwrap_or("BadData".into()) };
             let dst = jbytes(&m["dst"]);
-            (dest, json!({"inner": "transfer", "id": id, "sender": sender, "destAddr": String::from_utf8_lossy(&dst), "amt": amt as i64, "data": dname}))
+            (dest, json!({"inner": "transfer", "id": id, "sender": sender, "destAddr": self.remote_parties.iter().find(|(_, b)| **b == dst).map(|(n, _)| n.clone()).unwrap_or(String::from_utf8_lossy(&dst).into_owned()), "amt": amt as i64, "data": dname}))
         } else {
             let meta = self.meta_name(&jbytes(&m["name"]), &jbytes(&m["symbol"]), m["decimals"].as_u64().unwrap() as u32);
             let minter = if jbytes(&m["minter"]).is_empty() { "none" } else { "some" };
@@ -474,6 +495,7 @@ impl ItsBinder {
                 let addr = t.get(3).and_then(|v| SStr::try_from_val(&env, &v).ok()).map(|s| sstr_to_string(&s)).unwrap_or_default();
                 let ph = t.get(4).and_then(|v| BytesN::<32>::try_from_val(&env, &v).ok()).map(|b| b.to_array());
                 let payload = Bytes::try_from_val(&env, d).map(|b| bytes_to_vec(&b)).unwrap_or_default();
+                self.out_raw.push(payload.clone());
                 let (dest, msg) = self.abstract_msg(&payload);
                 let envelope_ok = caller.as_ref() == Some(&self.its) && chain == "axelar" && addr == HUB_ADDR && ph == Some(keccak(&payload));
                 out.push(json!({"k": "contract_called", "dest": if envelope_ok { dest } else { "BadEnvelope".into() }, "msg": msg}));
@@ -691,7 +713,10 @@ impl ItsBinder {
                 let idn = act["id"].as_str().unwrap();
                 let id = self.id_bytes(idn);
                 let dest = SStr::from_str(&env, act["dest"].as_str().unwrap());
-                let dst = Bytes::from_slice(&env, act["destAddr"].as_str().unwrap().as_bytes());
+                let dst = match self.remote_parties.get(act["destAddr"].as_str().unwrap()) {
+                    Some(b) => Bytes::from_slice(&env, b),
+                    None => Bytes::from_slice(&env, act["destAddr"].as_str().unwrap().as_bytes()),
+                };
                 let amt = act["amt"].as_i64().unwrap() as i128;
                 let data: Option<Bytes> = match act["data"].as_str().unwrap() {
                     "none" => None,
@@ -757,7 +782,10 @@ impl ItsBinder {
             "Deliver" => {
                 // a hub delivery under a fresh message id: approved for the service, then executed
                 self.fresh += 1;
-                let payload = self.payload_bytes(act["payload"].as_str().unwrap());
+                let payload = match self.raw_next.take() {
+                    Some(raw) => raw,
+                    None => self.payload_bytes(act["payload"].as_str().unwrap()),
+                };
                 let mid = SStr::from_str(&env, &format!("fresh-{}", self.fresh));
                 let src_chain = act.get("srcChain").and_then(|x| x.as_str()).unwrap_or("axelar");
                 let src_addr = if act.get("srcAddr").and_then(|x| x.as_str()).unwrap_or("hub") == "hub" { HUB_ADDR } else { NOT_HUB_ADDR };
@@ -987,7 +1015,7 @@ impl ItsBinder {
         let wh_q: Option<BytesN<32>> = self.g.cx.query(&its, "interchain_token_wasm_hash", SVec::new(&env));
         if gs_q.as_ref() != Some(&self.gs) { wiring.push("gas_service"); }
         if gw_q.as_ref() != Some(&gw) { wiring.push("gateway"); }
-        if cn_q.map(|s| sstr_to_string(&s)).as_deref() != Some(CHAIN_NAME) { wiring.push("chain_name"); }
+        if cn_q.map(|s| sstr_to_string(&s)).as_deref() != Some(self.chain_name.as_str()) { wiring.push("chain_name"); }
         if ha_q.map(|s| sstr_to_string(&s)).as_deref() != Some(HUB_ADDR) { wiring.push("its_hub_address"); }
         if hc_q.map(|s| sstr_to_string(&s)).as_deref() != Some("axelar") { wiring.push("its_hub_chain_name"); }
         if wh_q != self.wasm_hash { wiring.push("interchain_token_wasm_hash"); }
